@@ -804,6 +804,51 @@ impl<T: Storage> RawNode<T> {
     }
 }
 
+/// Verification hook (compiled only with `--cfg tikv_raft_rs_verif`): a read-only
+/// view of the private bookkeeping of `RawNode`.
+#[cfg(tikv_raft_rs_verif)]
+#[doc(hidden)]
+pub mod verif {
+    use super::{RawNode, StateRole, Storage};
+
+    /// `(number, last_entry, snapshot)` of an outstanding Ready.
+    pub type Record = (u64, Option<(u64, u64)>, Option<(u64, u64)>);
+
+    /// Private fields of a `RawNode`.
+    pub struct Private {
+        /// prev_ss
+        pub prev_leader_id: u64,
+        /// prev_ss
+        pub prev_role: StateRole,
+        /// prev_hs as (term, vote, commit)
+        pub prev_hs: (u64, u64, u64),
+        /// max_number
+        pub max_number: u64,
+        /// records, front first
+        pub records: Vec<Record>,
+        /// commit_since_index
+        pub commit_since_index: u64,
+    }
+
+    impl<T: Storage> RawNode<T> {
+        /// Read-only view of the private fields.
+        pub fn verif_private(&self) -> Private {
+            Private {
+                prev_leader_id: self.prev_ss.leader_id,
+                prev_role: self.prev_ss.raft_state,
+                prev_hs: (self.prev_hs.term, self.prev_hs.vote, self.prev_hs.commit),
+                max_number: self.max_number,
+                records: self
+                    .records
+                    .iter()
+                    .map(|r| (r.number, r.last_entry, r.snapshot))
+                    .collect(),
+                commit_since_index: self.commit_since_index,
+            }
+        }
+    }
+}
+
 #[cfg(test)]
 mod test {
     use crate::eraftpb::MessageType;
